@@ -1479,7 +1479,14 @@ def run_chunk(args):
             for _, _, p in prepared:
                 n = len(flatten(p)); replies.append(flat_replies[pos:pos + n]); pos += n
         except Exception as e:
-            out['errors'].append('driver: %s' % e); replies = [{}] * len(prepared)
+            # the batch failed (a reply that is not JSON, a killed driver): ask program by program, so that every other program keeps
+            # its verdict and the culprit is named
+            replies = []
+            for src, _, p in prepared:
+                try:
+                    replies.append(call_driver(cmd, cwd, [request_of(q) for q in flatten(p)]))
+                except Exception as e1:
+                    out['errors'].append('%s: no verdict from the driver (%s: %s)' % (src[:200], type(e1).__name__, str(e1)[:120])); replies.append({})
     for (src, pr, p), r in zip(prepared, replies):
         out['n'] += 1
         rl = r if isinstance(r, list) else [r] * len(flatten(p))
